@@ -92,6 +92,19 @@ def norm(o):
     return repr(o)
 
 
+def same(a, b):
+    """outcome equality; a concrete float (Fraction mixed with a float literal of the code) is compared with tolerance"""
+    if isinstance(a, Fraction) and isinstance(b, Fraction):
+        if a == b:
+            return True
+        return abs(a - b) <= Fraction(1, 10 ** 9) * max(1, abs(a), abs(b))
+    if isinstance(a, list) and isinstance(b, list):
+        return len(a) == len(b) and all(same(x, y) for x, y in zip(a, b))
+    if isinstance(a, dict) and isinstance(b, dict):
+        return a.keys() == b.keys() and all(same(a[k], b[k]) for k in a)
+    return a == b
+
+
 def load_snapshot(d):
     return {"vars": {k: (Fraction(v) if isinstance(v, str) else v) for k, v in d["vars"].items()},
             "choices": list(d["choices"])}
@@ -170,6 +183,11 @@ def _worker(task):
                         st["nonrepro"] += 1
                         continue
                     failures, cout, _ = res
+                    try:    # the same input in native int/float arithmetic (recorded, not required)
+                        nat = run_concrete(unit, cfg, snap, as_float=True)
+                        native = bool(nat and nat[0])
+                    except Exception:
+                        native = None
                     cls = None
                     if unit.classify:
                         try:
@@ -177,7 +195,8 @@ def _worker(task):
                         except Exception:
                             cls = None
                     st["violations"].append({"unit": unit.name, "cfg": cfg, "clause": name, "failures": failures,
-                                             "snapshot": jsonable(snap), "outcome": jsonable(cout), "class": cls})
+                                             "snapshot": jsonable(snap), "outcome": jsonable(cout), "class": cls,
+                                             "reproduces_in_native_float_arithmetic": native})
             elif unit.witness and witness_every and (counter[0] + seed) % witness_every == 0:
                 try:
                     set_active(E)
@@ -189,7 +208,7 @@ def _worker(task):
                         st["witness_bad"].append({"cfg": cfg, "snapshot": jsonable(snap), "why": "concrete run left the path"})
                     else:
                         failures, cout, _ = res
-                        if failures or norm(cout) != sym_out:
+                        if failures or not same(norm(cout), sym_out):
                             st["witness_bad"].append({"cfg": cfg, "snapshot": jsonable(snap), "failures": failures,
                                                       "symbolic": jsonable(sym_out), "concrete": jsonable(norm(cout))})
                         else:
@@ -352,7 +371,9 @@ def finish(prop, tier, seed, R, level_note=""):
         path = os.path.join(VERIF, "replay", prop, f"{tier}_{i}.json")
         v = vs[0]
         json.dump({"property": prop, "unit": v["unit"], "cfg": v["cfg"], "snapshot": v["snapshot"], "failures": v["failures"],
-                   "class": v["class"], "outcome": v["outcome"], "similar_paths": len(vs)}, open(path, "w"), indent=1)
+                   "class": v["class"], "outcome": v["outcome"], "similar_paths": len(vs),
+                   "reproduces_in_native_float_arithmetic": v.get("reproduces_in_native_float_arithmetic"),
+                   "similar_paths_reproducing_natively": sum(1 for x in vs if x.get("reproduces_in_native_float_arithmetic"))}, open(path, "w"), indent=1)
         lines.append(f"VIOLATION property={prop} replay={path}")
     for f in listed:
         n = len(matched.get(f["key"], []))
